@@ -251,7 +251,9 @@ pub fn finish(ctx: &Ctx, mut out: Outcome) -> i32 {
     }
     let mut new_violations = 0;
     let mut known_hits: BTreeMap<String, String> = BTreeMap::new();
-    let _ = std::fs::create_dir_all(format!("{}/replays", VERIF_ROOT));
+    // VERIF_OUT_DIR (used only by tools/seedlab.sh, which tests seeded changes in a scratch copy): where replays and evidence go
+    let out_root = std::env::var("VERIF_OUT_DIR").unwrap_or_else(|_| VERIF_ROOT.to_string());
+    let _ = std::fs::create_dir_all(format!("{}/replays", out_root));
     let mut vio_summaries = vec![];
     for v in &out.violations {
         let hit = known.iter().find(|k| k.property == ctx.prop && k.status == "open" && k.rule == v.rule && k.signature == v.signature);
@@ -270,7 +272,7 @@ pub fn finish(ctx: &Ctx, mut out: Outcome) -> i32 {
         }
         let txt = serde_json::to_string_pretty(&rep).unwrap();
         let h = fnv64(format!("{}|{}", v.rule, v.signature).as_bytes());
-        let path = format!("{}/replays/{}-{:016x}.json", VERIF_ROOT, ctx.prop, h);
+        let path = format!("{}/replays/{}-{:016x}.json", out_root, ctx.prop, h);
         let _ = std::fs::write(&path, txt);
         println!("  rule={} signature={} :: {}", v.rule, v.signature, v.what);
         println!("VIOLATION property={} replay={}", ctx.prop, path);
@@ -300,8 +302,8 @@ pub fn finish(ctx: &Ctx, mut out: Outcome) -> i32 {
         "wall_s": (wall * 1000.0).round() / 1000.0,
         "violations": new_violations,
     });
-    let _ = std::fs::create_dir_all(format!("{}/evidence", VERIF_ROOT));
-    let evp = format!("{}/evidence/{}.json", VERIF_ROOT, ctx.prop);
+    let _ = std::fs::create_dir_all(format!("{}/evidence", out_root));
+    let evp = format!("{}/evidence/{}.json", out_root, ctx.prop);
     std::fs::write(&evp, serde_json::to_string_pretty(&ev).unwrap()).expect("cannot write evidence");
     let brief: Vec<String> = ["evaluations", "states", "transitions", "traces_validated_against_impl", "distinct_nontrivial", "exhaustive"]
         .iter()
